@@ -131,11 +131,23 @@ func UnmarshalInputToOptions(input protoiface.UnmarshalInput) proto.UnmarshalOpt
 		AllowPartial:      true, // defaults to true as the required fields check is done after the unmarshalling
 		DiscardUnknown:    input.Flags&protoiface.UnmarshalDiscardUnknown != 0,
 		Resolver:          input.Resolver,
+		RecursionLimit:    nestedRecursionLimit(input.Depth),
 	}
+}
+
+// nestedRecursionLimit returns the nesting budget left for the messages nested in a
+// message that is being decoded with the budget depth. proto.UnmarshalOptions reads a
+// RecursionLimit of 0 as "use the default", so an exhausted budget is handed on as -1.
+func nestedRecursionLimit(depth int) int {
+	if depth <= 1 {
+		return -1
+	}
+	return depth - 1
 }
 
 var (
 	ErrInvalidLength        = fmt.Errorf("proto: negative length found during unmarshaling")
 	ErrIntOverflow          = fmt.Errorf("proto: integer overflow")
 	ErrUnexpectedEndOfGroup = fmt.Errorf("proto: unexpected end of group")
+	ErrRecursionDepth       = fmt.Errorf("proto: exceeded max recursion depth")
 )
